@@ -208,6 +208,14 @@ def dict_roundtrip(ctx, repo, rule):
                 return None
             ev2 = Evaluator(repo, max_depth=1, assume=assume)
             ev2.run(fd, C, args={fd.params[1]: D})
+            if not flat:
+                # nested layout: the per-parameter columns live under "samples", so nothing may be removed from the field
+                # dictionary by a parameter *name* (a parameter called like a field -- beta, dtype, ... -- would delete that field)
+                by_name = [e for e in ev2.events if e.func is fd and e.callee == "method:pop" and e.args and e.args[0][0] == "d" and len(e.args) > 1 and e.args[1][0] != "k"]
+                ctx.decide(not by_name, rule, construct, loc_of(fd, by_name[0].node if by_name else None),
+                           "nested layout: no entry is removed from the field dictionary by parameter name",
+                           "in the nested layout from_dict removes entries of the field dictionary by parameter name: a parameter named like a constructor field "
+                           "(e.g. `beta` on an SMC population) silently deletes that field, which comes back as its default", disc=f"{tag}|collide")
             news = [e for e in ev2.events if e.callee.startswith("new:") and e.depth == 0]
             if len(news) != 1 or news[0].callee != f"new:{C.ident}":
                 ctx.refute(rule, construct, loc_of(fd), f"from_dict does not end in exactly one {cn}(...) construction", disc=tag)
@@ -348,6 +356,7 @@ MUTANTS += [
     M("SMC concatenate takes evidence of the last piece only", _S, "out.log_evidence = first.log_evidence", "out.log_evidence = None", "C16.cat"),
 ]
 MUTANTS += [
+    M("from_dict pops parameter names in the nested layout too", _S, "x = np.stack([samples[p] for p in parameters], axis=-1)\n        else:", "x = np.stack([samples[p] for p in parameters], axis=-1)\n            for p in parameters:\n                dictionary.pop(p, None)\n        else:", "C16.dictrt"),
     M("to_dict keeps only the skipped fields", _S, 'if name in ["x", "xp"]:\n                continue', 'if name not in ["x", "xp"]:\n                continue', "C16.dictrt"),
     M("to_dict stores None for every set field", _S, "if value is None:\n                out[name] = None", "if value is not None:\n                out[name] = None", "C16.dictrt"),
     M("to_dict forgets the namespace", _S, 'out["xp"] = self.xp\n', "", "C16.dictrt"),
